@@ -68,6 +68,8 @@ type Env struct {
 	ctx      context.Context
 	cancel   context.CancelFunc
 	started  bool
+	// WhyNotIdle describes what was busy when WaitIdle last gave up
+	WhyNotIdle string
 }
 
 // New creates scratch space, an empty hooks tree and a fake cluster with the given namespaces.
@@ -120,6 +122,24 @@ func (e *Env) Close() {
 		e.cancel()
 	}
 	os.RemoveAll(e.Scratch)
+}
+
+// Restart shuts the operator down (as SIGTERM does) and assembles and starts a new one on the same
+// fake cluster, hooks directory and temp directory.
+func (e *Env) Restart() error {
+	if e.Op != nil && e.started {
+		e.OpenAllGates()
+		e.Op.Shutdown()
+	}
+	if e.cancel != nil {
+		e.cancel()
+	}
+	e.started = false
+	if err := e.Assemble(); err != nil {
+		return err
+	}
+	e.Start()
+	return nil
 }
 
 // OpenAllGates creates the well-known gate files g0..g31.
@@ -187,10 +207,35 @@ func (e *Env) WaitIdle(stable, ceiling time.Duration) bool {
 			since = time.Time{}
 		}
 		if time.Now().After(deadline) {
+			e.WhyNotIdle = e.describeBusy(recs)
 			return false
 		}
 		time.Sleep(time.Millisecond)
 	}
+}
+
+// describeBusy says which part of the idle condition does not hold (diagnostics for harness time-outs).
+func (e *Env) describeBusy(recs []vh.Record) string {
+	var sb []string
+	e.Op.TaskQueues.Iterate(func(q *queue.TaskQueue) {
+		if q.Length() > 0 || q.GetStatus() == "run first task" {
+			first := ""
+			if t := q.GetFirst(); t != nil {
+				first = t.GetDescription()
+			}
+			sb = append(sb, fmt.Sprintf("queue %s: %d tasks, status %q, head %s", q.Name, q.Length(), q.GetStatus(), first))
+		}
+	})
+	if n := len(e.Op.ScheduleManager.Ch()); n > 0 {
+		sb = append(sb, "schedule channel not empty")
+	}
+	if n := len(e.Op.KubeEventsManager.Ch()); n > 0 {
+		sb = append(sb, "kube events channel not empty")
+	}
+	if !balanced(recs) {
+		sb = append(sb, "a hook process is still running")
+	}
+	return fmt.Sprint(sb)
 }
 
 func balanced(recs []vh.Record) bool {
